@@ -67,21 +67,25 @@ def extract_model():
     if rc != 0:
         raise Stage('extraction', log[-2000:])
     shutil.copy(os.path.join(VERIF, 'harness', 'ml', 'driver.ml'), ex)
-    rc, log = sh('ocamlfind ocamlopt -w -a model.mli model.ml driver.ml -o model_driver', cwd=ex)
+    tmp_exe = 'model_driver.new.%d' % os.getpid()
+    rc, log = sh('ocamlfind ocamlopt -w -a model.mli model.ml driver.ml -o %s' % tmp_exe, cwd=ex)
     if rc != 0:
         raise Stage('ocaml build', log[-2000:])
+    os.replace(os.path.join(ex, tmp_exe), os.path.join(ex, 'model_driver'))      # never expose a half-written executable
     open(stamp, 'w').write(key)
     return os.path.join(ex, 'model_driver')
 
-def evict(prefix, suffix, keep=3):
-    """disk is limited: keep only the most recent build directories of one kind (several, because checks of
-    different trees may run side by side)"""
+def evict(prefix, suffix, keep=10, max_age_s=5400):
+    """disk is limited: remove build directories of one kind that have not been used for a while (checks of different trees
+    may run side by side, so a directory in recent use is never removed), and never keep more than `keep`"""
     if not os.path.isdir(BUILD):
         return
+    now = time.time()
     ds = [os.path.join(BUILD, d) for d in os.listdir(BUILD) if d.startswith(prefix) and d.endswith(suffix)]
     ds.sort(key=lambda d: os.path.getmtime(d), reverse=True)
-    for d in ds[keep:]:
-        shutil.rmtree(d, ignore_errors=True)
+    for k, d in enumerate(ds):
+        if k >= keep or (k >= 1 and now - os.path.getmtime(d) > max_age_s):
+            shutil.rmtree(d, ignore_errors=True)
 
 def cxx_build(extra='', tag='plain'):
     """always rebuilt from /repo's current working tree (cached by content hash of headers + harness)"""
@@ -89,6 +93,7 @@ def cxx_build(extra='', tag='plain'):
     out = os.path.join(BUILD, 'cxx-' + key)
     exe = os.path.join(out, 'cxx_driver')
     if os.path.exists(exe):
+        os.utime(out)
         return exe
     evict('cxx-', '-' + tag)
     rc, log = sh('%s %s %s' % (os.path.join(VERIF, 'harness', 'cxx', 'build.sh'), out, extra), timeout=900)
@@ -103,6 +108,7 @@ def engines_build():
     out = os.path.join(BUILD, 'eng-' + key)
     exes = [os.path.join(out, 'engines_' + t) for t in 'fdl']
     if all(os.path.exists(e) for e in exes):
+        os.utime(out)
         return exes
     evict('eng-', '')
     os.makedirs(out, exist_ok=True)
